@@ -236,13 +236,36 @@ impl VisitMut for OptChainVisitor<'_> {
                     }
                 }
 
-                expr.visit_mut_children_with(self);
+                self.visit_mut_chain_spine(expr);
             }
 
             _ => {
-                expr.visit_mut_children_with(self);
+                self.visit_mut_chain_spine(expr);
             }
         };
+    }
+}
+
+impl OptChainVisitor<'_> {
+    /*
+     * Continues only through the links of the chain being processed (object of a member, callee of a call).
+     *  Call arguments and computed properties are not part of the chain: any optional chaining inside them
+     *  is an independent expression with its own guard and it is visited later on its own.
+     */
+    fn visit_mut_chain_spine(&mut self, expr: &mut Expr) {
+        match expr {
+            Expr::OptChain(opt_chain_expr) => match &mut *opt_chain_expr.base {
+                OptChainBase::Member(member_expr) => member_expr.obj.visit_mut_with(self),
+                OptChainBase::Call(call_expr) => call_expr.callee.visit_mut_with(self),
+            },
+            Expr::Member(member_expr) => member_expr.obj.visit_mut_with(self),
+            Expr::Call(call_expr) => {
+                if let Callee::Expr(callee) = &mut call_expr.callee {
+                    callee.visit_mut_with(self)
+                }
+            }
+            _ => {}
+        }
     }
 }
 
